@@ -295,7 +295,12 @@ class AsyncConnectionPool(AsyncRequestInterface):
                 # log: "closing expired connection"
                 self._connections.remove(connection)
                 closing_connections.append(connection)
-            elif not connection.is_idle() and not any(
+
+        # Then the connections that were left behind, or that are surplus to
+        # the keep-alive limit. Connections that have just been dropped above
+        # no longer count towards that limit.
+        for connection in list(self._connections):
+            if not connection.is_idle() and not any(
                 connection is used for used in in_use
             ):
                 # A connection that no request refers to any more, but which
